@@ -83,6 +83,9 @@ VARIABLES c,        \* the class of this transaction
           ret,      \* "run" | "Ok" | "Err"
           panic
 vars == <<c, pc, nreply, wrote, buffered, fscalls, ret, panic>>
+\* Beyond the listed properties: the MetricsHook protocol. `collect` is called once when a request reaches the
+\* dispatcher (after the oversize test) and `release` once when its handler returns, on every path; neither is
+\* called for requests refused before dispatch. Derived from pc history: Dispatched(h) below.
 
 Init == /\ c \in Classes /\ pc = "header" /\ nreply = 0 /\ wrote = FALSE /\ buffered = FALSE /\ fscalls = 0
         /\ ret = "run" /\ panic = FALSE
@@ -193,5 +196,6 @@ ForgetSilent == c.op \in {"FORGET", "BATCH_FORGET"} => nreply = 0
 Answered == (Done /\ WellFormed /\ NeedsReply /\ c.cap = "big") => nreply = 1
 OneOperation == fscalls <= 1
 \* predicted outcome of a finished transaction, printed once per class for the harness
-Outcome == [nreply |-> nreply, ret |-> ret, fscalls |-> fscalls]
+Dispatched == c.sup = "ge40" /\ c.lenf # "huge"
+Outcome == [nreply |-> nreply, ret |-> ret, fscalls |-> fscalls, hooks |-> IF Dispatched THEN 1 ELSE 0]
 =============================================================================
